@@ -29,6 +29,9 @@ REQS.update({("v1", k): v for k, v in NOMINAL_V1.items() if k != "version"})
 # the same uiHeartbeat request met by a device that is ALREADY in UI-heartbeat mode (left there
 # by an earlier attempt): the code takes another path through the command
 REQS[("v5", "uiHb@ui")] = REQS[("v5", "uiHb")]
+# advanceBlockchain for blocks that have no brothers at all
+REQS[("v5", "advance@nobro")] = dict(REQS[("v5", "advance")],
+                                     brothers=[[] for _ in REQS[("v5", "advance")]["blocks"]])
 NAMES = sorted(REQS)
 PLAIN_NAMES = [k for k in NAMES if "@" not in k[1]]      # for users that model follow-ups
 
@@ -129,8 +132,8 @@ def named_cause(kind, sw, authorized):
             return {-202, -204}
         if sw in BLOCK_FMT_ADV:
             return {-204}
-        if kind == "adv:brochunk" and sw in (0x6B9F, 0x6BA0, 0x6BA1):
-            return {-205}
+        if sw in (0x6B9E, 0x6B9F, 0x6BA0, 0x6BA1):
+            return {-205}        # the four 'brothers' causes, at whatever step they are reported
         return None
     if kind == "adv:brolist":
         return {-205} if sw == 0x6B9E else None
